@@ -180,7 +180,10 @@ func RunFlow(w *World, spec *RunSpec, tune func(f *Flow)) *Flow {
 	f.DamagedGen = map[int]bool{}
 	f.adopted = map[int]bool{}
 	f.Carry = map[[2]int]bool{}
-	w.StopParam = spec.Param - 1 // Param 0: no stop
+	w.StopParam = -1
+	if f.O.Generations > 1 {
+		w.StopParam = spec.Param - 1 // Param 0: no stop
+	}
 	for g := 1; g <= f.O.Generations; g++ {
 		if g > 1 {
 			f.prepareAdoption()
@@ -366,7 +369,7 @@ func (m *monC01) Online(f *Flow, c *Conn) {
 
 func (m *monC01) Final(f *Flow) {
 	w := f.W
-	if f.FatalSetup != nil || w.Inconcl != "" {
+	if f.FatalSetup != nil || w.Inconcl != "" || f.O.Closers > 0 {
 		return
 	}
 	if f.QStartStep == 0 {
@@ -419,7 +422,7 @@ func (f *Flow) stuckWhere() string {
 }
 
 func allMonitors() []Monitor {
-	return []Monitor{&monC01{}, &monC02{}, &monC03{}, &monC04{}, &monC05{}, &monC06{}, &monC07{}, &monC08{}, &monC10{}, &monC11{}, &monC14{}, &monC17{}, &monC18{}}
+	return []Monitor{&monC12{}, &monC01{}, &monC02{}, &monC03{}, &monC04{}, &monC05{}, &monC06{}, &monC07{}, &monC08{}, &monC10{}, &monC11{}, &monC14{}, &monC17{}, &monC18{}}
 }
 
 // flowFamily builds a family around the general flow. touched names the probes
@@ -564,6 +567,34 @@ func init() {
 		f.O.Budget += 4
 		f.O.Backoff = !f.W.Tape.Flip("nobackoff10", 250)
 	}, "write_break", "short_write_timeout", "backoff_checked")})
+	closeTune := func(f *Flow) {
+		o := &f.O
+		o.Closers = 1 + f.W.Tape.Draw("nclosers", 3)
+		o.CloserMix = [4]int{3, 2, 1, 1}
+		o.CloserW = 1
+		o.Publishers = f.W.Tape.Draw("npub12", 3)
+		o.Requesters = f.W.Tape.Draw("nreq12", 3)
+		o.PerReq = 2 + f.W.Tape.Draw("perreq12", 3)
+		o.Inbound = f.W.Tape.Draw("nin12", 4)
+		o.QuitMix = [4]int{3, 1, 1, 1}
+	}
+	register("C12", Family{Name: "closers", Weight: 3, Run: flowFamily(closeTune, "closer_dialing", "closer_awaiting-connack", "closer_resending", "closer_online-writer-in-flight", "closer_offline", "closer_online", "closer_never-connected")},
+		Family{Name: "close-sweep", Weight: 1, Sweep: true, Run: func(w *World, spec *RunSpec, res *RunResult) {
+			flowFamily(func(f *Flow) {
+				closeTune(f)
+				if spec.Param > 0 {
+					f.O.CloserAtStep = spec.Param
+				} else {
+					f.O.Closers = 0 // base run: learn the number of steps
+				}
+			}, "closer_dialing", "closer_awaiting-connack", "closer_resending", "closer_online-writer-in-flight", "closer_offline")(w, spec, res)
+			if spec.Param == 0 {
+				res.Sweep = w.Steps
+				if res.Sweep > 400 {
+					res.Sweep = 400
+				}
+			}
+		}})
 	register("C08", Family{Name: "concurrent", Weight: 1, Run: flowFamily(func(f *Flow) {
 		f.O.Requesters = 1 + f.W.Tape.Draw("nreq", 3)
 		f.O.PerReq = 2 + f.W.Tape.Draw("perreq", 6)
